@@ -1,10 +1,150 @@
 /-
   Props.C19 — container objects refine their Python prototypes under any operation history.
+
+  Object models (`Asn1.Container`: `SeqOf.step`, `Rec.step`, `Choice.step`) mirror
+  pyasn1/type/univ.py as it is after the C19 `fix:` commits; the prototypes (`ListSpec`, `DictSpec`,
+  `OptionSpec`) are plain list / dict / option programs.  Helper lemmas live in Proofs/Container*.
 -/
 import Asn1.Container
+import Proofs.ContainerSeqOf
+import Proofs.ContainerRec
+import Proofs.ContainerChoice
 
 namespace Asn1.C19
 open Asn1.Container
+
+/-- **SEQUENCE OF / SET OF refines the list prototype.**  From the object that represents any
+    prototype state (`rep`: keys 0..n-1 in order; with or without a component type), along any
+    history of allowed operations, every call returns what the prototype returns and the object
+    ends as the representation of the prototype's final state — hence equal length, items,
+    iteration order, isValue and abstract content after every step.
+    `Allowed` leaves out what the documentation does not cover: writes beyond position N,
+    `setComponentByPosition(i)` without value on an existing element of a container without component
+    type, and (finding T5) reads beyond position N of a container with component type. -/
+theorem seqOf_refines_list (typed : Bool) (s : ListSpec.St) (ops : List SeqOfOp)
+    (hinv : ListSpec.Inv typed s) (hal : ListSpec.AllowedRun typed s ops) :
+    SeqOf.run typed (ListSpec.rep typed s) ops =
+      (ListSpec.rep typed (ListSpec.run typed s ops).1, (ListSpec.run typed s ops).2) :=
+  run_rep s ops hinv hal
+
+/-- the fresh object is the representation of "no list", so the theorem covers every history from
+    a new `SequenceOf()` -/
+theorem seqOf_refines_list_fresh (typed : Bool) (ops : List SeqOfOp)
+    (hal : ListSpec.AllowedRun typed none ops) :
+    SeqOf.run typed ⟨none⟩ ops =
+      (ListSpec.rep typed (ListSpec.run typed none ops).1, (ListSpec.run typed none ops).2) :=
+  run_rep none ops (by intro _ l hl; cases hl) hal
+
+/-
+  Full statement (false of the code, finding T4-eq; dynamic-name records not covered):
+    theorem seq_refines_dict : Rec.Inv fields st → ∀ ops,
+      (Rec.run fields st ops).2 = (DictSpec.run fields (absD st) ops).2 ∧ absD (…).1 = (…).1
+-/
+/-- **SEQUENCE / SET with declared fields refines the dict prototype**, for histories that avoid
+    (finding T4-eq) `==` in a state where the library raises instead of answering and `encode` of
+    an object that is not a value.  Outputs are equal step by step and the abstraction `absD`
+    (placeholders and the noValue sentinel both read as "unset") commutes with every step. -/
+theorem seq_refines_dict_partial (fields : List FK) (hN : fields.length ≠ 0) (st : RecSt)
+    (hinv : Rec.Inv fields st) (ops : List RecOp)
+    (hal : ∀ (pre : List RecOp) (op : RecOp) (post : List RecOp), ops = pre ++ op :: post →
+      Rec.Allowed fields (Rec.run fields st pre).1 op = true) :
+    (Rec.run fields st ops).2 = (DictSpec.run fields (Rec.absD st) ops).2 ∧
+    Rec.absD (Rec.run fields st ops).1 = (DictSpec.run fields (Rec.absD st) ops).1 ∧
+    Rec.Inv fields (Rec.run fields st ops).1 :=
+  run_abs hinv hN ops hal
+
+/-- the T4-eq region is not empty: after `values()` touched the absent OPTIONAL member, `==` with
+    a fresh equal record raises the library error where the dict prototype answers True -/
+theorem eq_after_read_raises :
+    let fields := [FK.req, FK.opt, FK.dflt 7]
+    let st := (Rec.run fields ⟨some [], 0⟩ [.setItemName 0 (.py 1), .values]).1
+    (Rec.step fields st (.eqTo [.val 1, .hole, .hole])).2 = .libErr ∧
+    (DictSpec.step fields (Rec.absD st) (.eqTo [.val 1, .hole, .val 7])).2 = .bool true := by
+  decide
+
+/-- **CHOICE refines the option prototype** — every operation, no guard: outputs equal, the
+    abstraction commutes, the shape invariant is kept.  Touching a non-selected alternative with
+    `instantiate=True` is a mutator of the prototype as well (select by touching, DESIGN T3). -/
+theorem choice_refines_option (n : Nat) (hn : n ≠ 0) (st : ChoiceSt) (hinv : Choice.Inv n st)
+    (ops : List ChoiceOp) :
+    (Choice.run n st ops).2 = (OptionSpec.run n (Choice.absO st) ops).2 ∧
+    Choice.absO (Choice.run n st ops).1 = (OptionSpec.run n (Choice.absO st) ops).1 ∧
+    Choice.Inv n (Choice.run n st ops).1 :=
+  choice_run hn hinv ops
+
+/-- **a CHOICE holds at most one alternative at any time**: after any history from the fresh
+    object at most one slot is not `noValue` -/
+theorem choice_at_most_one (n : Nat) (hn : n ≠ 0) (ops : List ChoiceOp) :
+    Choice.held (Choice.run n ⟨some [], none⟩ ops).1 ≤ 1 :=
+  held_le_one (choice_run hn (inv_fresh n) ops).2.2
+
+/-
+  Full statement (false of the code, finding T5): without the `Allowed` hypothesis.
+-/
+/-- **ill-formed operations raise and change nothing**, SEQUENCE OF / SET OF: a position outside
+    the documented range or a refused value (for multi-element assignments: the first one) gives
+    IndexError / PyAsn1Error and the very same object state.  The guard `Allowed` excludes exactly
+    finding T5 (reading beyond position N of a container with component type). -/
+theorem illformed_noop_seqOf_partial (typed : Bool) (s : ListSpec.St) (op : SeqOfOp)
+    (hinv : ListSpec.Inv typed s) (hill : ListSpec.illFormed typed s op = true)
+    (hal : ListSpec.Allowed typed s op = true) :
+    (SeqOf.step typed (ListSpec.rep typed s) op).2.isErr = true ∧
+    (SeqOf.step typed (ListSpec.rep typed s) op).1 = ListSpec.rep typed s := by
+  obtain ⟨h1, h2⟩ := spec_illformed s op hill hal
+  rw [(step_rep s op hinv hal).1]
+  exact ⟨h1, by rw [h2]⟩
+
+/-- finding T5 on the model: reading position 5 of a three-element SEQUENCE OF INTEGER does not
+    raise and leaves a six-element, valueless object -/
+theorem t5_read_beyond_end_grows :
+    let st := ListSpec.rep true (some [some 1, some 2, some 3])
+    (SeqOf.step true st (.getItem 5)).2 = .comp .ph ∧
+    SeqOf.len (SeqOf.step true st (.getItem 5)).1 = 6 ∧
+    SeqOf.isValue (SeqOf.step true st (.getItem 5)).1 = false := by
+  decide
+
+/-- … SEQUENCE / SET with declared fields: unknown name or tag, position outside the declared
+    fields, refused value -/
+theorem illformed_noop_seq (fields : List FK) (hN : fields.length ≠ 0) (st : RecSt)
+    (hinv : Rec.Inv fields st) (op : RecOp) (hill : DictSpec.illFormed fields op = true) :
+    (Rec.step fields st op).2.isErr = true ∧ (Rec.step fields st op).1 = st :=
+  rec_illformed hinv hN op hill
+
+/-- … CHOICE -/
+theorem illformed_noop_choice (n : Nat) (hn : n ≠ 0) (st : ChoiceSt) (hinv : Choice.Inv n st)
+    (op : ChoiceOp) (hill : choiceIllFormed n op = true) :
+    (Choice.step n st op).2.isErr = true ∧ (Choice.step n st op).1 = st :=
+  choice_illformed hn hinv op hill
+
+/-- **reads change nothing**, SEQUENCE OF / SET OF: len, iteration, `in`, slices, count, index,
+    prettyPrint, ==, encode, `getComponentByPosition(instantiate=False)` and `s[i]` /
+    `getComponentByPosition(i)` on an existing position leave the object exactly as it was -/
+theorem reads_preserve_seqOf (typed : Bool) (s : ListSpec.St) (op : SeqOfOp)
+    (hinv : ListSpec.Inv typed s) (hr : ListSpec.isReader typed s op = true)
+    (hal : ListSpec.Allowed typed s op = true) :
+    (SeqOf.step typed (ListSpec.rep typed s) op).1 = ListSpec.rep typed s := by
+  rw [(step_rep s op hinv hal).1, spec_reader s op hr]
+
+/-- … SEQUENCE / SET: len, keys, `in`, prettyPrint, ==, every accessor with `instantiate=False`,
+    instantiating accessors on a member that holds a value, and `encode` of a value object leave
+    the prototype state — hence length, isValue and abstract content — unchanged.  (`values()`,
+    `items()` and instantiating accessors on an unset member are touches: they allocate the slots
+    and give a DEFAULT member its default; `abs` is still unchanged, see `touch_preserves_abs`.) -/
+theorem reads_preserve_seq (fields : List FK) (hN : fields.length ≠ 0) (st : RecSt)
+    (hinv : Rec.Inv fields st) (op : RecOp) (hr : DictSpec.isReader fields (Rec.absD st) op = true)
+    (hal : Rec.Allowed fields st op = true) :
+    Rec.absD (Rec.step fields st op).1 = Rec.absD st ∧
+    Rec.abs fields (Rec.step fields st op).1 = Rec.abs fields st ∧
+    Rec.isValue fields (Rec.step fields st op).1 = Rec.isValue fields st := by
+  obtain ⟨_, h2, h3⟩ := step_abs hinv hN op hal
+  have h : Rec.absD (Rec.step fields st op).1 = Rec.absD st := by rw [h2, dict_reader _ op hr]
+  exact ⟨h, by rw [abs_spec h3 hN, abs_spec hinv hN, h], by rw [isValue_abs hN, isValue_abs hN, h]⟩
+
+/-- … CHOICE: len, keys, `in`, values, items, getComponent, getName, prettyPrint, ==, encode never
+    touch the object -/
+theorem reads_preserve_choice (n : Nat) (st : ChoiceSt) (op : ChoiceOp) (hr : pureReader op = true) :
+    (Choice.step n st op).1 = st :=
+  impl_fst_reader n st op hr
 
 /-- every dunder the scalar classes implement by forwarding to their payload is one `NoValue`
     plugs (or, for `__bytes__`, reaches the payload through the plugged `__index__`): on a schema
@@ -14,5 +154,30 @@ theorem schema_scalar_ops_fail :
       noValueRaises Generated.noValuePlugged d ||
       (d == "__bytes__" && noValueRaises Generated.noValuePlugged "__index__")) = true := by
   decide
+
+/-! ### non-vacuity -/
+
+/-- a history with appends, reverse, slice assignment, clone, reads and an ill-formed write is
+    allowed from the fresh typed object … -/
+example : ListSpec.AllowedRun true none
+    [.append (.py 3), .extend [.py 1, .obj 2], .getItem 3, .setItem 3 (.py 9), .reverse,
+     .setSlice (some 0) (some 2) [.py 5, .py 6], .clone true, .setItem (-9) (.py 1), .setItem 0 .bad, .contains 5, .encode] := by
+  decide
+
+/-- … and the prototype ends with the list [5, 6, 1, 3] -/
+example : (ListSpec.run true none
+    [.append (.py 3), .extend [.py 1, .obj 2], .getItem 3, .setItem 3 (.py 9), .reverse,
+     .setSlice (some 0) (some 2) [.py 5, .py 6], .clone true, .contains 5, .encode]).1
+    = some [some 5, some 6, some 1, some 3] := by
+  decide
+
+/-- the record invariant holds of the fresh object and of a padded one -/
+example : Rec.Inv [FK.req, FK.opt, FK.dflt 7] ⟨some [], 0⟩ :=
+  ⟨rfl, by intro l hl; cases hl; exact ⟨.inl rfl, by intro k d _; simp⟩⟩
+
+example : DictSpec.illFormed [FK.req, FK.opt] (.setItemName 2 (.py 1)) = true := by decide
+example : ListSpec.illFormed true (some [some 1]) (.getItem (-2)) = true := by decide
+example : choiceIllFormed 2 (.setItemPos 2 (.py 1)) = true := by decide
+example : Choice.Inv 2 ⟨some [], none⟩ := inv_fresh 2
 
 end Asn1.C19
